@@ -582,6 +582,22 @@ class VBin(VBase):
     kid: "VBin | None" = None
 
 
+@dataclass(frozen=True)
+class VAt(VBase):
+    """Property values that are themselves serializable pyoak objects (a code point, a range), next to
+    a bytes property that needs the MessagePack dialect on the way back."""
+
+    at: "CodePoint | None" = None
+    span: "CodeRange | None" = None
+    blob: bytes = b""
+    kid: "VBase | None" = None
+
+
+from pyoak.origin import CodePoint, CodeRange  # noqa: E402
+
+CLASSES["VAt"] = VAt
+
+
 class _Pretty:
     """A plain (non-node) mixin."""
 
@@ -682,6 +698,24 @@ class VStamp(VBase):
 
 
 CLASSES["VStamp"] = VStamp
+_SERIALS = __import__("itertools").count(1)
+
+
+@dataclass(frozen=True)
+class VSerial(VBase):
+    """COMPARABLE properties that are no constructor arguments and differ between instances: one
+    taken from a counter, one computed from an argument before the base initialisation."""
+
+    name: str = ""
+    serial: int = field(default_factory=lambda: next(_SERIALS), init=False)
+    size: int = field(default=0, init=False)
+
+    def __post_init__(self) -> None:
+        object.__setattr__(self, "size", len(self.name) % 2)
+        super().__post_init__()
+
+
+CLASSES["VSerial"] = VSerial
 CLASSES["VSlot"] = VSlot
 CLASSES["VBin"] = VBin
 CLASSES["VValidated"] = VValidated
